@@ -50,6 +50,7 @@ macro "ok3_auto" : tactic => `(tactic| repeat (first
 theorem ok3_mulDerivs (s a : Obj) : Ok3 (mulDerivs s a) := by
   unfold mulDerivs
   refine ok3_bind (ok3_filterMapE _ (fun d => ?_) _) (fun _ => ok3_pure _)
+  unfold mulStep
   ok3_auto
 theorem ok3_vMulQ (s a : Obj) : Ok3 (vMulQ s a) := by
   unfold vMulQ
@@ -74,7 +75,11 @@ theorem ok3_vInsertDeriv (s : Obj) (k : String) (a : Arg) (o : Bool) : Ok3 (vIns
 theorem ok3_vInsertDerivs (s : Obj) (ds : List (String × Arg)) (o : Bool) : Ok3 (vInsertDerivs s ds o) := by
   unfold vInsertDerivs
   refine ok3_bind (ok3_guard _ _ rfl) (fun _ => ok3_bind (ok3_mapE _ (fun p => ?_) _) (fun _ => ok3_pure _))
-  repeat (first | exact ok3_compatibleDeriv _ _ | ok3_step)
+  intro e he
+  unfold insStep at he
+  split at he
+  · cases he
+  · next e' he' => cases he; exact ok3_compatibleDeriv _ _ _ he'
 theorem ok3_vDeleteDeriv (s : Obj) (k : String) (o : Bool) : Ok3 (vDeleteDeriv s k o) := by
   unfold vDeleteDeriv; ok3_auto
 theorem ok3_vDeleteDerivs (s : Obj) (p : List String) (o : Bool) : Ok3 (vDeleteDerivs s p o) := by
@@ -208,6 +213,7 @@ theorem mulDerivs_shapes (s a : Obj) (nd) (h : mulDerivs s a = .ok nd) :
   rcases hx with ⟨d, _, rfl⟩ | hx
   · exact into_refl _
   · obtain ⟨d, _, hf⟩ := filterMapE_mem _ _ _ hb x hx
+    unfold mulStep at hf
     split at hf
     · cases hf
     · split at hf
@@ -359,21 +365,119 @@ theorem safe_vInsertDeriv (s : Obj) (key : String) (d : Arg) (ov : Bool) : Safe 
   rw [execAll_cons_ok _ _ _ this]; rfl
 
 /-- insert_derivs on a writable object, or with override=True -/
-theorem safe_vInsertDerivs (s : Obj) (ds : List (String × Arg)) (ov : Bool) (h : s.ro = false ∨ ov = true) :
+theorem insStep_ok (s : Obj) (p : String × Arg) (k : String) (o : Obj) (h : insStep s p = .ok (k, o)) :
+    k = p.1 ∧ compatibleDeriv s p.2 = .ok o := by
+  unfold insStep at h
+  split at h
+  · next o' ho' => cases h; exact ⟨rfl, ho'⟩
+  · cases h
+
+theorem mapE_insStep_keys (s : Obj) : ∀ (ds : List (String × Arg)) (os : List (String × Obj)),
+    mapE (insStep s) ds = .ok os → os.map (·.1) = ds.map (·.1) := by
+  intro ds
+  induction ds with
+  | nil => intro os h; simp only [mapE] at h; cases h; rfl
+  | cons p ps ih =>
+    intro os h
+    simp only [mapE] at h
+    split at h
+    · cases h
+    · next b hb =>
+      split at h
+      · cases h
+      · next l hl =>
+        cases h
+        obtain ⟨k, o⟩ := b
+        have := (insStep_ok s p k o hb).1
+        simp [this, ih l hl]
+
+/-- the part of insert_deriv's precondition that only the frame decides -/
+def insCompat (f : Frame) (o : Obj) : Bool := f.cls.derivsOk && (o.numer == f.numer) && into o.shape f.shape
+
+theorem hasKey_after_insert (s : Obj) (k k' : String) (sh nu dn : Shape) (q ov : Bool)
+    (hne : k ≠ k') (h : s.hasKey k' = false) :
+    ((Prim.insertDeriv k sh nu dn q ov).apply s).hasKey k' = false := by
+  simp only [Prim.apply, Obj.hasKey, List.any_append, List.any_filter, List.any_cons, List.any_nil, Bool.or_false]
+  simp only [Obj.hasKey] at h
+  rw [List.any_eq_false] at h
+  have h1 : (s.derivs.any fun x => (x.key != k) && (x.key == k')) = false := by
+    rw [List.any_eq_false]
+    intro x hx
+    have := h x hx
+    simp_all
+  have h2 : (k == k') = false := by simpa using hne
+  simp [h1, h2]
+
+/-- a sequence of insert_deriv calls whose derivatives are all compatible runs to its end: on a writable object,
+    with override, or — on a read-only object without override — if the keys are distinct and none is present -/
+theorem exec_inserts (ov : Bool) : ∀ (os : List (String × Obj)) (s' : Obj),
+    (∀ p ∈ os, insCompat s'.frame p.2 = true) →
+    (s'.ro = false ∨ ov = true ∨ ((os.map (·.1)).Nodup ∧ ∀ p ∈ os, s'.hasKey p.1 = false)) →
+    (execAll s' (os.map fun p => Prim.insertDeriv p.1 p.2.shape p.2.numer p.2.denom true ov)).2 = none := by
+  intro os
+  induction os with
+  | nil => intro s' _ _; rfl
+  | cons p ps ih =>
+    intro s' hc hk
+    have hp := hc p (by simp)
+    simp only [insCompat, Obj.frame, Bool.and_eq_true] at hp
+    obtain ⟨⟨h1, h2⟩, h3⟩ := hp
+    have hlast : (!(s'.ro && s'.hasKey p.1 && !ov)) = true := by
+      rcases hk with h | h | ⟨_, h⟩
+      · simp [h]
+      · simp [h]
+      · simp [h p (by simp)]
+    have hpre : (Prim.insertDeriv p.1 p.2.shape p.2.numer p.2.denom true ov).pre s' = true := by
+      simp only [Prim.pre, h1, h2, h3, hlast, Bool.and_self]
+    rw [List.map_cons, execAll_cons_ok _ _ _ hpre]
+    apply ih
+    · intro q hq
+      rw [apply_frame]
+      exact hc q (by simp [hq])
+    · rcases hk with h | h | ⟨hnd, h⟩
+      · left; show s'.ro = false; exact h
+      · right; left; exact h
+      · right; right
+        simp only [List.map_cons, List.nodup_cons] at hnd
+        refine ⟨hnd.2, ?_⟩
+        intro q hq
+        have hne : p.1 ≠ q.1 := by
+          intro he
+          exact hnd.1 (by rw [he]; exact List.mem_map_of_mem (f := (·.1)) hq)
+        exact hasKey_after_insert s' p.1 q.1 _ _ _ _ _ hne (h q (by simp [hq]))
+
+/-- insert_derivs: FULL — also on a read-only object without override, given that the keys of the dictionary
+    are distinct (which is what a Python dict is) -/
+theorem safe_vInsertDerivs (s : Obj) (ds : List (String × Arg)) (ov : Bool) (hnd : (ds.map (·.1)).Nodup) :
     Safe s (vInsertDerivs s ds ov) := by
   unfold vInsertDerivs
-  refine safe_bind _ (fun _ _ => ?_)
+  refine safe_bind _ (fun _ hg => ?_)
   refine safe_bind _ (fun os hos => ?_)
   apply safe_pure
-  apply execAll_frame
-  intro p hp
-  simp only [List.mem_map] at hp
-  obtain ⟨⟨k, o⟩, hko, rfl⟩ := hp
-  obtain ⟨⟨k', d⟩, _, hf⟩ := mapE_mem _ _ _ hos _ hko
-  obtain ⟨o', ho', hf⟩ := (bind_ok _ _ _).1 hf
-  cases hf
-  obtain ⟨h1, h2, h3⟩ := compatibleDeriv_facts s d _ ho'
-  rcases h with h | h <;> simp_all [frameOk, Obj.frame]
+  apply exec_inserts
+  · intro p hp
+    obtain ⟨k, o⟩ := p
+    obtain ⟨⟨k', d⟩, _, hf⟩ := mapE_mem _ _ _ hos _ hp
+    obtain ⟨h1, h2, h3⟩ := compatibleDeriv_facts s d o (insStep_ok s _ k o hf).2
+    simp [insCompat, Obj.frame, h1, h2, h3]
+  · by_cases hro : s.ro = false
+    · exact Or.inl hro
+    · by_cases hov : ov = true
+      · exact Or.inr (Or.inl hov)
+      · right; right
+        have hkeys := mapE_insStep_keys s ds os hos
+        refine ⟨by rw [hkeys]; exact hnd, ?_⟩
+        intro p hp
+        have hg' := (guard_ok _ _).1 hg
+        have hro' : s.ro = true := by cases h : s.ro <;> simp_all
+        have hov' : ov = false := by cases h : ov <;> simp_all
+        simp only [hro', hov', Bool.not_false, Bool.true_and, Bool.not_eq_true'] at hg'
+        rw [List.any_eq_false] at hg'
+        have hmem : p.1 ∈ ds.map (·.1) := by rw [← hkeys]; exact List.mem_map_of_mem (f := (·.1)) hp
+        obtain ⟨q, hq, hqk⟩ := List.mem_map.1 hmem
+        have := hg' q hq
+        rw [← hqk]
+        simpa using this
 
 theorem safe_vDeleteDeriv (s : Obj) (key : String) (ov : Bool) : Safe s (vDeleteDeriv s key ov) := by
   unfold vDeleteDeriv
